@@ -38,6 +38,7 @@ GenStep ==
                            \/ DeleteFinish(p, i) /\ Rec("DeleteFinish", p, NoPeer, i, "", NoOut)
                            \/ \E c \in Changes : Edit(p, i, c) /\ Rec("Edit", p, NoPeer, i, c, NoOut)
          \/ Restart(p) /\ Rec("Restart", p, NoPeer, "", "", NoOut)
+         \/ \E i \in Ids, c \in Changes : RestartEdit(p, i, c) /\ Rec("RestartEdit", p, NoPeer, i, c, NoOut)
          \/ Flip(p) /\ Rec("Flip", p, NoPeer, "", "", NoOut)
          \/ IndexApply(p) /\ Rec("IndexApply", p, NoPeer, Head(pend[p]).id, "", [u |-> Head(pend[p])])
          \/ RoundBegin(p) /\ Rec("RoundBegin", p, NoPeer, "", "", NoOut)
